@@ -4,7 +4,7 @@ import JunoModel.C16.ModelMig
 /-! Line-protocol driver for the C16 model (`lake build c16drv`).
 
 State-changing requests (answer = `Out` of the model step):
-  cfg <retained> <l2PerPrune> <minAge 0|1> <legacy 0|1> <fixed 0|1> <migSkipsMissing 0|1> <migZeroNoop 0|1> <l2Clamps 0|1>
+  cfg <retained> <l2PerPrune> <minAge 0|1> <legacy 0|1> <fixed 0|1> <migSkipsMissing 0|1> <migZeroNoop 0|1> <l2Clamps 0|1> <readerGuard 0|1>
                      reset to the empty node with this configuration (block timestamps all 0)
   ts <t0> <t1> ...   the header timestamps of blocks 0, 1, ... (configuration; the node state is untouched)
   clock <t>          the wall clock minus the minimum age is now t (it only advances: `advance (t - cutoff)`)
@@ -13,7 +13,7 @@ State-changing requests (answer = `Out` of the model step):
   store | revert | writel1 <n> | evl1 <n> | evl2 <n> | flush <k> | finish | fail | crash <seed 0|1> | tick | migrate <unchangedSlot 0|1>
 Observations:
   q <query> <n>      answer of the node about block n: ok | notfound | pruned | stale <m>
-  held <b>           a historical reader opened earlier for block b, read now
+  held <num|hash> <b>   a historical reader opened earlier for block b, read now
   lu <num|hash|head> <w> <n>   ContractStorageLastUpdatedBlock of a slot last written at block w: ok | lost | notfound
   migfloor           the migration's own min-age floor (FindOldestBlockAtOrAfter(0, pivot, cutoff)); - = none
   head               head state
@@ -96,12 +96,12 @@ def keyBytes (scratch : Bool) (kind addr slot blk : String) : String :=
 
 def stepLine (d : DSt) (line : String) : DSt × String :=
   match words line with
-  | ["cfg", r, l, m, lg, fx, ms, mz, cl] =>
-    match u64? r, u64? l, bool? m, bool? lg, bool? fx, bool? ms, bool? mz, bool? cl with
-    | some r, some l, some m, some lg, some fx, some ms, some mz, some cl =>
+  | ["cfg", r, l, m, lg, fx, ms, mz, cl, rg] =>
+    match u64? r, u64? l, bool? m, bool? lg, bool? fx, bool? ms, bool? mz, bool? cl, bool? rg with
+    | some r, some l, some m, some lg, some fx, some ms, some mz, some cl, some rg =>
       ({ cfg := { retained := r, l2PerPrune := l, minAge := m, legacy := lg, fixed := fx,
-                  migSkipsMissing := ms, migZeroNoop := mz, l2Clamps := cl }, st := St.init }, "ok")
-    | _, _, _, _, _, _, _, _ => (d, "bad-op")
+                  migSkipsMissing := ms, migZeroNoop := mz, l2Clamps := cl, readerGuard := rg }, st := St.init }, "ok")
+    | _, _, _, _, _, _, _, _, _ => (d, "bad-op")
   | "ts" :: tss =>
     match tss.mapM nat? with
     | some l =>
@@ -113,9 +113,12 @@ def stepLine (d : DSt) (line : String) : DSt × String :=
     | some t => if d.st.cutoff ≤ t then doOp d (.advance (t - d.st.cutoff)) else (d, "bad-op")
     | none => (d, "bad-op")
   | ["tick"] => doOp d .tick
-  | ["held", b] =>
+  | ["held", how, b] =>
     match nat? b with
-    | some b => (d, showAns (heldRead d.cfg d.st b))
+    | some b =>
+      if how == "num" then (d, showAns (heldRead d.cfg d.st false b))
+      else if how == "hash" then (d, showAns (heldRead d.cfg d.st true b))
+      else (d, "bad-op")
     | none => (d, "bad-op")
   | ["migfloor"] =>
     match d.st.db.height, d.st.db.l1 with
